@@ -569,14 +569,14 @@ func RunLoopTerm(w *World, r *Report, br *boundsRun, fns []*ssa.Function) {
 					}
 					for _, f := range p.edgeFacts(pr, l.head) {
 						for a := range f.e.t {
-							if a.k == aLen {
+							if a.k == aLen || isMapLen(a) {
 								cands[a] = true
 							}
 						}
 					}
 				}
 				for a := range arg.trips.t {
-					if a.k == aLen {
+					if a.k == aLen || isMapLen(a) {
 						cands[a] = true
 					}
 				}
